@@ -6,6 +6,7 @@ package gnet
 
 import (
 	"fmt"
+	"hash/crc32"
 	"net"
 	"os"
 	"testing"
@@ -17,6 +18,32 @@ type strAddr string
 
 func (strAddr) Network() string  { return "x" }
 func (a strAddr) String() string { return string(a) }
+
+// forgeCRC returns prefix plus four bytes chosen so that the IEEE CRC-32 of the whole is target: the hash of
+// the Source-Addr-Hash policy is an unknown function in LB.tla, its boundary values are reached on purpose.
+func forgeCRC(prefix string, target uint32) (string, bool) {
+	tbl := crc32.IEEETable
+	reg := ^crc32.ChecksumIEEE([]byte(prefix))
+	w := ^target
+	var idx [4]byte
+	for i := 3; i >= 0; i-- {
+		for j := 0; j < 256; j++ {
+			if byte(tbl[j]>>24) == byte(w>>24) {
+				idx[i] = byte(j)
+				w = (w ^ tbl[j]) << 8
+				break
+			}
+		}
+	}
+	out := make([]byte, 4)
+	r := reg
+	for i := 0; i < 4; i++ {
+		out[i] = byte(r) ^ idx[i]
+		r = (r >> 8) ^ tbl[idx[i]]
+	}
+	res := prefix + string(out)
+	return res, crc32.ChecksumIEEE([]byte(res)) == target
+}
 
 func TestVerifLBTrace(t *testing.T) {
 	tr, err := vsup.OpenTrace(os.Getenv("VERIF_TRACE"))
@@ -35,6 +62,14 @@ func TestVerifLBTrace(t *testing.T) {
 	for i := 0; i < 40; i++ {
 		addrs = append(addrs, &net.TCPAddr{IP: net.IPv4(byte(rng.Intn(256)), byte(rng.Intn(256)), byte(rng.Intn(256)), byte(rng.Intn(256))), Port: rng.Intn(65536)})
 	}
+	forged := 0
+	for i, target := range []uint32{0, 1, 0x7fffffff, 0x80000000, 0x80000001, 0xfffffffe, 0xffffffff, 0x40000000, 0xc0000000} {
+		if a, ok := forgeCRC(fmt.Sprintf("/run/peer-%d-", i), target); ok {
+			addrs = append(addrs, &net.UnixAddr{Name: a, Net: "unix"})
+			forged++
+		}
+	}
+	rep.Set("addresses_with_forced_hash", forged)
 	for hno := 0; hno < vsup.EnvInt("VERIF_HISTORIES", 60); hno++ {
 		n := sizes[rng.Intn(len(sizes))]
 		if rng.Intn(3) == 0 {
